@@ -200,6 +200,9 @@ class EvalArm(Obligation):
         e = eng_mod.Engine(prog, step_limit=self.limits.get('steps', 20000), timeout_ms=self.limits.get('timeout_ms', 30000), seed=ctx.seed)
         e.abstract_fdiv = bool(self.limits.get('abstract_fdiv'))
         e.deadline = time.time() + self.limits.get('max_wall_s', 600 if ctx.tier == 'quick' else 3600)
+        # syntactic exploration (C02): every branch is taken without asking the solver - an over-approximation of the feasible paths, which is
+        # sound for an upper bound on the work; the solver is asked only about paths that exceed the step budget
+        e.no_feasibility = bool(self.limits.get('syntactic')); e.lazy = e.no_feasibility
         if 'branch_timeout_ms' in self.limits: e.branch_timeout_ms = self.limits['branch_timeout_ms']
         st = eng_mod.State()
         profile = 'dev' if self.oc else 'release'
@@ -343,6 +346,65 @@ class EvalArm(Obligation):
             res['paths'] += 1
             out = self.outcome_of(p, e)
             viol_here = False
+            if self.limits.get('syntactic'):
+                if out[0] != 'limit': return              # within the budget (whether or not the path is feasible)
+                def small_core_unsat():
+                    """is a subset of the path condition made of its small conjuncts already unsatisfiable? (sound: a superset is then unsat too)"""
+                    pcs = e.path_condition()
+                    def size(t, cap=400):
+                        n = 0; stack = [t]; seen = set()
+                        while stack and n <= cap:
+                            u = stack.pop()
+                            if u.get_id() in seen: continue
+                            seen.add(u.get_id()); n += 1; stack.extend(u.children())
+                        return n
+                    head = [c for c in pcs[:80] if is_sym(c) and size(c) <= 400]
+                    tail = [c for c in pcs[-60:] if is_sym(c) and size(c) <= 400]
+                    for sub in (head[:30] + tail[-3:], head + tail):
+                        s2 = z3.Solver(); s2.set('timeout', 60000)
+                        for c in sub: s2.add(c)
+                        if s2.check() == z3.unsat: return True
+                    return False
+                # cheap attempt first: any model of the path, run natively under the watchdog (a non-terminating input shows at once)
+                e.solver.set('timeout', 8000); e._cur_timeout_ms = 8000
+                try:
+                    rq = e.check()
+                    if rq == z3.sat:
+                        try:
+                            cz0 = Concretizer(e.solver.model(), runner)
+                            sx, stt, payload, us = native_of(cz0)
+                            if stt == 'TIMEOUT':
+                                res['confirmed'].append(dict(sexpr=sx, native='TIMEOUT (no answer within the 5 s watchdog)', profile=profile, what='step limit: ' + str(out[1]), us=us,
+                                                             key='%s|%s|step limit|%s|' % (self.ev, self.kind, profile), obligation=self.name))
+                                raise eng_mod.StopExploration()
+                        except Unsupported:
+                            pass
+                finally:
+                    e.solver.set('timeout', e.timeout_ms); e._cur_timeout_ms = e.timeout_ms
+                if rq != z3.sat:
+                    # no model within the quick budget: try the registered boundary witnesses natively before any heavier reasoning
+                    w = pool_witness(leaves, native_of, runner)
+                    if w is not None:
+                        res['confirmed'].append(dict(sexpr=w[0], native='TIMEOUT (no answer within the 5 s watchdog)', profile=profile, what='step limit: ' + str(out[1]), us=w[3],
+                                                     key='%s|%s|step limit|%s|' % (self.ev, self.kind, profile), obligation=self.name))
+                        raise eng_mod.StopExploration()
+                if small_core_unsat():
+                    res['spurious'] = res.get('spurious', 0) + 1
+                    return
+                rq2 = e.check()
+                if rq2 == z3.unknown:
+                    # the solver cannot produce a model of the long path: try the registered boundary witnesses natively
+                    w = pool_witness(leaves, native_of, runner)
+                    if w is not None:
+                        res['confirmed'].append(dict(sexpr=w[0], native='TIMEOUT (no answer within the 5 s watchdog)', profile=profile, what='step limit: ' + str(out[1]), us=w[3],
+                                                     key='%s|%s|step limit|%s|' % (self.ev, self.kind, profile), obligation=self.name))
+                        raise eng_mod.StopExploration()
+                if rq2 != z3.sat:                   # an over-budget path must be really feasible to count
+                    res['spurious'] = res.get('spurious', 0) + 1
+                    if e.unknowns and len(res['inconclusive']) < 3 and str(e.stats.queries.get('unknown', 0)) != str(res.get('_unk0', 0)):
+                        res['_unk0'] = e.stats.queries.get('unknown', 0)
+                        res['inconclusive'].append('%s: solver could not decide whether an over-budget path is feasible' % self.name)
+                    return
             if out[0] == 'limit' and not getattr(self, 'limit_is_violation', True):
                 # exploration cut at the step bound (value-dependent loop; termination is C02's subject): replay the model natively so
                 # that at least this representative is known not to panic, and report the truncation in the evidence
@@ -359,7 +421,7 @@ class EvalArm(Obligation):
                         pass
                 return
             for cond, oc_ in ref:
-                if e.check(cond) != z3.sat: continue
+                if cond is not True and e.check(cond) != z3.sat: continue
                 res['obligations'] += 1
                 what = None; extra = [cond] if cond is not True else []
                 if out[0] == 'panic': what = 'panic: ' + out[1]
@@ -389,6 +451,7 @@ class EvalArm(Obligation):
                 c = confirm(out, oc_, what, extra)
                 if isinstance(c, dict):
                     viol_here = True
+                    if self.limits.get('syntactic'): res['_stop'] = True
                     c['key'] = '%s|%s|%s|%s|%s' % (self.ev, self.kind, vk, profile, (out[1] if out[0] == 'panic' else '')[:90])
                     c['obligation'] = self.name
                     res['confirmed'].append(c)
@@ -403,6 +466,7 @@ class EvalArm(Obligation):
                     res.setdefault('unconfirmed_abstract', []).append('%s: %s' % (self.name, what))
                 else:
                     res['inconclusive'].append('%s: %s' % (self.name, c))
+            if res.get('_stop'): raise eng_mod.StopExploration()
             # validation replay of the path itself
             if not viol_here and res['replayed'] < self.replay_cap and p.kind != 'limit':
                 try:
@@ -510,7 +574,8 @@ def finish(ctx, results, bounds, level_text, outside, extra=None):
     inconclusive = [m for r in results for m in r['inconclusive']]
     mismatches = [m for r in results for m in r['replay_mismatch']]
     new = []; seen_known = set()
-    os.makedirs(os.path.join(VERIF, 'replays', prop), exist_ok=True)
+    rdir = os.path.join(os.environ.get('VERIF_EVIDENCE_DIR') or VERIF, 'replays', prop)
+    os.makedirs(rdir, exist_ok=True)
     for c in confirmed:
         k = (prop, c['key'])
         if k in known_keys:
@@ -522,7 +587,7 @@ def finish(ctx, results, bounds, level_text, outside, extra=None):
         new.append(c)
     for c in new:
         h = hashlib.sha256(json.dumps(c, sort_keys=True).encode()).hexdigest()[:12]
-        path = os.path.join(VERIF, 'replays', prop, h + '.json')
+        path = os.path.join(rdir, h + '.json')
         json.dump(dict(property=prop, **c), open(path, 'w'), indent=1)
         print('VIOLATION property=%s replay=%s' % (prop, path))
         print('  %s: %s -> %s [%s]' % (c.get('obligation'), c.get('sexpr') or c.get('input'), c.get('native'), c.get('what')))
@@ -573,8 +638,9 @@ def finish(ctx, results, bounds, level_text, outside, extra=None):
     af = sum(r.get('assumed_feasible', 0) for r in results)
     if af: ev['coverage']['branches_kept_on_solver_timeout'] = af
     if extra: ev['coverage'].update(extra)
-    os.makedirs(os.path.join(VERIF, 'evidence'), exist_ok=True)
-    json.dump(ev, open(os.path.join(VERIF, 'evidence', prop + '.json'), 'w'), indent=1, default=str)
+    evdir = os.environ.get('VERIF_EVIDENCE_DIR') or os.path.join(VERIF, 'evidence')
+    os.makedirs(evdir, exist_ok=True)
+    json.dump(ev, open(os.path.join(evdir, prop + '.json'), 'w'), indent=1, default=str)
     print('%s tier=%s harnesses=%d paths=%d obligations=%d discharged=%d replayed=%d new_violations=%d known=%d inconclusive=%d mismatches=%d wall=%.1fs' % (
         prop, ctx.tier, len(results), paths, ev['coverage']['obligations'], ev['coverage']['discharged'], ev['coverage']['traces_validated_against_impl'],
         len(new), len(seen_known), len(inconclusive), len(mismatches), wall))
@@ -602,3 +668,39 @@ class FnCall(EvalArm):
             stt, payload, us = runner.request(*req)
             return ' '.join(req), stt, payload, us
         return entry, [lf.var for lf in self._leaves], self._leaves, native_of
+
+
+F64_POOL = [0.0, 1.0, -1.0, 2.0, 0.5, 1.1, 5.0, 100.0, 1e18, 1e308, float('inf'), float('-inf'), float('nan'), -0.0, 1e-300, 171.0, 1e10]
+I64_POOL = [0, 1, -1, 2, 5, 63, 64, 100, 10 ** 18, I64_MAX, I64_MIN, 21, 1000000]
+
+
+def pool_witness(leaves, native_of, runner):
+    """try boundary values for the symbolic leaves until the native run hits the watchdog; returns native_of's tuple or None"""
+    import itertools
+    vars_ = []
+    for lf in leaves:
+        v = getattr(lf, 'val', None)
+        v = lf.var if v is None else v
+        if isinstance(v, tuple) and v and v[0] == 'adt': v = v[3][0]
+        if isinstance(v, tuple): continue
+        if is_sym(v): vars_.append(v)
+    if not vars_ or len(vars_) > 3: return None
+    pools = []
+    for v in vars_:
+        if z3.is_fp(v): pools.append([fp_const(x) for x in F64_POOL])
+        elif z3.is_bv(v): pools.append([z3.BitVecVal(x, v.size()) for x in I64_POOL])
+        elif z3.is_int(v): pools.append([z3.IntVal(x) for x in I64_POOL])
+        else: return None
+    n = 0
+    for combo in itertools.product(*pools):
+        n += 1
+        if n > 300: break
+        s2 = z3.Solver()
+        for v, x in zip(vars_, combo): s2.add(v == x)
+        if s2.check() != z3.sat: continue
+        try:
+            r = native_of(Concretizer(s2.model(), runner))
+        except Exception:
+            continue
+        if r[1] == 'TIMEOUT': return r
+    return None
